@@ -160,7 +160,11 @@ static void c18_merge(Case& cs) {
       size_t keep_blocks = fm.blocks.size();
       cb.kind = "valid";
       if (k == 6 && !fm.blocks.empty()) {   // becomes unreadable part-way: truncated at a random offset behind the header
-        size_t cut = (size_t)c.range(fm.blocks[0].begin, bytes.size() - 1);
+        size_t cut;
+        uint64_t cm = c.range(0, 2);
+        if (cm == 0) cut = bytes.size() - 1;                                                    // only the closing break is missing
+        else if (cm == 1) cut = fm.blocks[c.range(0, fm.blocks.size() - 1)].end;                // exactly between two blocks
+        else cut = (size_t)c.range(fm.blocks[0].begin, bytes.size() - 1);
         bytes.resize(cut);
         keep_blocks = 0;
         for (auto& b : fm.blocks) if (b.end <= cut) keep_blocks++;
